@@ -2,9 +2,13 @@ SPECIFICATION Spec
 CONSTANTS
   MaskUpdated = FALSE
   MaxOps = 6
+  MaxRep = 6
   MaxPool = 3
   Sizes = {1, 2}
   MaxParts = 4
+  Fams = {"wf", "dup", "twotok", "twover", "twosame", "tokzero", "overlap664", "range664", "diffn", "pno", "twomain"}
+  Take = FALSE
+  Linear = FALSE
   Export = FALSE
 VIEW View
-INVARIANTS OnlyKnownBug
+INVARIANTS OnlyKnownBug ForeignInert
